@@ -83,6 +83,10 @@ class Ctx:
             self._vh = out
         return self._vh
 
+    def vh_race(self):
+        """The harness built with the race detector (C11)."""
+        return self.binary("vh", race=True)
+
     def binary(self, name="gogreement", race=False, tags=None):
         """Build a command of /repo (gogreement) or of the harness (ggtrace)."""
         key = (name, race, tags)
